@@ -131,6 +131,7 @@ fn main() {
     // every temporary database / header-map directory of the nodes goes under the scratch directory
     let scratch = scratch_dir(&prop);
     std::env::set_var("TMPDIR", &scratch);
+    world::start_watchdog(out.clone(), prop.clone(), seed);
     let _log_guard = std::env::var("HX_LOG").ok().map(|f| ckb_logger_service::init_for_test(&f).expect("logger"));
     ckb_logger::debug!("hx-poolchain start");
     let (n_hist, steps) = match (thorough, std::env::var("HX_HIST").ok().and_then(|s| s.parse::<u64>().ok())) {
@@ -232,6 +233,7 @@ fn main() {
             break;
         }
     }
+    world::heartbeat_off();
     // the critical schedule (pre-checked Proposed, submitted under a tip whose window no longer holds the id) must
     // have been reached: a run that lost it says so instead of passing
     if n_directed >= 5 && viol.iter().all(|v| v.get("signature").is_some()) {
